@@ -63,7 +63,7 @@ fn pid_a7(s: &Pid, ev: &Output<f32, Er>) -> bool {
     }
 }
 
-//@ob fn="PIDControllerStream::new" at=src/streams/control.rs:21 clause="data invariant (prev_error None => int_error == 0; output present iff prev_error stored, same time) holds of a new stream; new() is (None, +0.0, Ok(None)) with the given parameters"
+//@ob fn="PIDControllerStream::new" at=src/streams/control.rs:21 also=rel_check clause="data invariant (prev_error None => int_error == 0; output present iff prev_error stored, same time) holds of a new stream; new() is (None, +0.0, Ok(None)) with the given parameters"
 #[kani::proof]
 fn c05_pid_inv_new() {
     let mut inp = Scripted::<f32>::new(any_output());
@@ -77,7 +77,7 @@ fn c05_pid_inv_new() {
     reach!();
 }
 
-//@ob fn="<PIDControllerStream<G,E> as Updatable>::update" at=src/streams/control.rs:44 prop=C05,C04 clause="data invariant is inductive: inv(s) => inv(update(s, ev)) for every input event, and update establishes the strong structural invariant from any inv-state; no panic (debug_assert unreachable-to-fail; A7 on the time difference)"
+//@ob fn="<PIDControllerStream<G,E> as Updatable>::update" at=src/streams/control.rs:44 prop=C05,C04 also=rel_check clause="data invariant is inductive: inv(s) => inv(update(s, ev)) for every input event, and update establishes the strong structural invariant from any inv-state; no panic (debug_assert unreachable-to-fail; A7 on the time difference)"
 #[kani::proof]
 fn c05_pid_inv_step() {
     let ev = any_output::<f32>();
@@ -91,7 +91,7 @@ fn c05_pid_inv_step() {
     reach!();
 }
 
-//@ob fn="<PIDControllerStream<G,E> as Updatable>::update" at=src/streams/control.rs:44 prop=C05,C04 clause="freshness from an arbitrary inv-state (cached error included): update returns Err(e) iff the input returned Err(e); get() afterwards is Err(e) iff this update's input was Err(e); absent => Ok(None); present d => Ok(Some) stamped d.time and prev_error stamped d.time; parameters unchanged; input read once, never updated"
+//@ob fn="<PIDControllerStream<G,E> as Updatable>::update" at=src/streams/control.rs:44 prop=C05,C04 also=rel_check clause="freshness from an arbitrary inv-state (cached error included): update returns Err(e) iff the input returned Err(e); get() afterwards is Err(e) iff this update's input was Err(e); absent => Ok(None); present d => Ok(Some) stamped d.time and prev_error stamped d.time; parameters unchanged; input read once, never updated"
 #[kani::proof]
 fn c05_pid_fresh() {
     let ev = any_output::<f32>();
@@ -127,19 +127,19 @@ fn pid_reset_check(ev: Output<f32, Er>) {
     reach!();
 }
 
-//@ob fn="<PIDControllerStream<G,E> as Updatable>::update" at=src/streams/control.rs:48 prop=C05,C04 clause="reset on absent: step(s, None) == step(new(same parameters), None), every field bit-equal, for an arbitrary inv-state s"
+//@ob fn="<PIDControllerStream<G,E> as Updatable>::update" at=src/streams/control.rs:48 prop=C05,C04 also=rel_check clause="reset on absent: step(s, None) == step(new(same parameters), None), every field bit-equal, for an arbitrary inv-state s"
 #[kani::proof]
 fn c05_pid_reset_absent() {
     pid_reset_check(Ok(None));
 }
 
-//@ob fn="<PIDControllerStream<G,E> as Updatable>::update" at=src/streams/control.rs:52 prop=C05,C04 clause="reset on error: step(s, Err e) == step(new(same parameters), Err e), every field bit-equal, for an arbitrary inv-state s and every e"
+//@ob fn="<PIDControllerStream<G,E> as Updatable>::update" at=src/streams/control.rs:52 prop=C05,C04 also=rel_check clause="reset on error: step(s, Err e) == step(new(same parameters), Err e), every field bit-equal, for an arbitrary inv-state s and every e"
 #[kani::proof]
 fn c05_pid_reset_error() {
     pid_reset_check(Err(kani::any()));
 }
 
-//@ob fn="<PIDControllerStream<G,E> as Getter>::get" at=src/streams/control.rs:39 clause="purity: get() returns the cached output, twice the same (bitwise), every field bit-unchanged, input not touched; arbitrary state (no invariant needed)"
+//@ob fn="<PIDControllerStream<G,E> as Getter>::get" at=src/streams/control.rs:39 also=rel_check clause="purity: get() returns the cached output, twice the same (bitwise), every field bit-unchanged, input not touched; arbitrary state (no invariant needed)"
 #[kani::proof]
 fn c05_pid_get_pure() {
     let mut inp = Scripted::<f32>::new(any_output());
